@@ -49,12 +49,16 @@ def first_diff(ci, cm):
 
 
 def run_stream(ctx, name, mod, fn, n_cases, per_chunk=60, canon_kw=None, raise_kinds=True,
-               extra_args=()):
-    """returns number of cases run"""
+               extra_args=(), chunk_ids=None, nchunks=None):
+    """returns number of cases run.  With `chunk_ids`, the generator enumerates a fixed finite
+    space split into `nchunks` slices and is called as fn(seed, chunk_id, nchunks, tier)."""
     canon_kw = canon_kw or {}
-    nchunks = max(1, (n_cases + per_chunk - 1) // per_chunk)
-    args = [(ctx.seed, k, min(per_chunk, n_cases - k * per_chunk), ctx.tier) + tuple(extra_args)
-            for k in range(nchunks)]
+    if chunk_ids is not None:
+        args = [(ctx.seed, k, nchunks, ctx.tier) + tuple(extra_args) for k in chunk_ids]
+    else:
+        nchunks = max(1, (n_cases + per_chunk - 1) // per_chunk)
+        args = [(ctx.seed, k, min(per_chunk, n_cases - k * per_chunk), ctx.tier) + tuple(extra_args)
+                for k in range(nchunks)]
     chunks = ctx.pmap(mod, fn, args)
     items = [it for ch in chunks for it in ch]
     for i, it in enumerate(items):
